@@ -224,7 +224,38 @@ impl<'a> Gen<'a> {
   }
   /// Productions over the value kinds of the scopes that are not numbers, strings or flat lists: a range,
   /// a date, a duration, nested lists, a list of 40 items.
+  /// Built-in functions and forms outside the core lists: contexts as maps, typed parameters, named parameters
+  /// of built-ins, `@` literals, type tests, interval functions (some are not implemented: null, every time).
+  fn rare_num(&mut self, d: u32) -> String {
+    match self.rng.index(8) {
+      0 => format!("get value({{k: {}}}, \"k\")", self.num(d)),
+      1 => "count(get entries(p))".into(),
+      2 => format!("(function(q: number) q + 1)({})", self.num(d)),
+      3 => "@\"2021-03-28\".day".into(),
+      4 => format!("decimal(n: {}, scale: 2)", self.num(d)),
+      5 => "number(\"1.5\", \".\", \",\") + a".into(),
+      6 => format!("(function(q: string, w: number) string length(q) + w)(s, {})", self.num(d)),
+      _ => "count(get entries({u: a, v: {w: b}}))".into(),
+    }
+  }
+  fn rare_bool(&mut self, d: u32) -> String {
+    match self.rng.index(10) {
+      0 => format!("is({}, {})", self.num(d), self.num(d)),
+      1 => format!("({} instance of number)", self.num(d)),
+      2 => "(xs instance of list<number>)".into(),
+      3 => "(p instance of context<name: string>)".into(),
+      4 => "(inc instance of function<number> -> number)".into(),
+      5 => "before(1, 10)".into(),
+      6 => "overlaps([1..5], [3..8])".into(),
+      7 => "(d0 in [date(\"2021-01-01\")..date(\"2021-12-31\")])".into(),
+      8 => format!("({} in (<= 5, > 30))", self.num(d)),
+      _ => "(string join(names, \"-\") = null)".into(),
+    }
+  }
   fn kinds_num(&mut self, d: u32) -> String {
+    if self.rng.chance(1, 3) {
+      return self.rare_num(d);
+    }
     match self.rng.index(8) {
       0 => "count(long)".into(),
       1 => format!("sum(long[item > {}])", 25 + self.rng.below(30)),
@@ -237,6 +268,9 @@ impl<'a> Gen<'a> {
     }
   }
   fn kinds_bool(&mut self, d: u32) -> String {
+    if self.rng.chance(1, 3) {
+      return self.rare_bool(d);
+    }
     match self.rng.index(5) {
       0 => format!("({} in r)", self.num(d)),
       1 => "(d0 < date(\"2021-03-14\"))".into(),
